@@ -12,7 +12,8 @@ structure SameToAnalysis (f g : File) : Prop where
   parses : g.parses = f.parses
   commands : fileCommands f.relPath g.items = fileCommands f.relPath f.items
   events : fileEvents f.relPath g.items = fileEvents f.relPath f.items
-  defs : fileDefs g.items = fileDefs f.items
+  defsContains : ∀ n, (fileDefs g.items).contains n = (fileDefs f.items).contains n
+  defsLength : (fileDefs g.items).length = (fileDefs f.items).length
   extract : ∀ n, extractType g.items n = extractType f.items n
 
 variable (g : File → File)
@@ -94,7 +95,7 @@ theorem defFile_map (l : List File) (h : ∀ f ∈ l, SameToAnalysis f (g f)) (n
     defFile (l.map g) n = (defFile l n).map g := by
   unfold defFile
   have : (l.map g).filter (fun f => (fileDefs f.items).contains n) = (l.filter fun f => (fileDefs f.items).contains n).map g :=
-    filter_map_of g _ l (fun f hf => by simp only [(h f hf).defs])
+    filter_map_of g _ l (fun f hf => (h f hf).defsContains n)
   rw [this, getLast?_map']
 
 theorem mem_defFile {l : List File} {n : Str} {f : File} (h : defFile l n = some f) : f ∈ l := by
@@ -146,8 +147,13 @@ theorem analyze_congr (p : Project) (h : ∀ f ∈ p.files, SameToAnalysis f (g 
     flatMap_map_congr g _ files (fun f hf => by rw [(hs f hf).path]; exact (hs f hf).commands)
   have he : (files.map g).flatMap (fun f => fileEvents f.relPath f.items) = files.flatMap (fun f => fileEvents f.relPath f.items) :=
     flatMap_map_congr g _ files (fun f hf => by rw [(hs f hf).path]; exact (hs f hf).events)
-  have hdn : (files.map g).flatMap (fun f => fileDefs f.items) = files.flatMap (fun f => fileDefs f.items) :=
-    flatMap_map_congr g _ files (fun f hf => (hs f hf).defs)
+  have hdn : ((files.map g).flatMap (fun f => fileDefs f.items)).length = (files.flatMap (fun f => fileDefs f.items)).length := by
+    clear hc he
+    induction files with
+    | nil => rfl
+    | cons f fs ih =>
+      simp only [List.map_cons, List.flatMap_cons, List.length_append, (hs f List.mem_cons_self).defsLength]
+      rw [ih (fun x hx => hs x (List.mem_cons_of_mem _ hx))]
   rw [hc, he, hdn]
   simp only [resolve_map g files hs]
 
@@ -272,16 +278,107 @@ theorem analyze_insert_inert (p : Project) (path : Str) (k : Nat) (it : Item)
     have hi := h f hf hp
     have hsplit : f.items = f.items.take k ++ f.items.drop k := (List.take_append_drop k f.items).symm
     rw [hsplit] at hi
-    refine ⟨rfl, rfl, ?_, ?_, ?_, ?_⟩
+    have hdefs : fileDefs (f.items.take k ++ it :: f.items.drop k) = fileDefs f.items := by
+      rw [fileDefs_insert path _ _ it hi, ← hsplit]
+    refine ⟨rfl, rfl, ?_, ?_, ?_, ?_, ?_⟩
     · show fileCommands f.relPath (f.items.take k ++ it :: f.items.drop k) = fileCommands f.relPath f.items
       rw [hp, fileCommands_insert path _ _ it hi, ← hsplit]
     · show fileEvents f.relPath (f.items.take k ++ it :: f.items.drop k) = fileEvents f.relPath f.items
       rw [hp, fileEvents_insert path _ _ it hi, ← hsplit]
-    · show fileDefs (f.items.take k ++ it :: f.items.drop k) = fileDefs f.items
-      rw [fileDefs_insert path _ _ it hi, ← hsplit]
+    · intro n
+      show (fileDefs (f.items.take k ++ it :: f.items.drop k)).contains n = (fileDefs f.items).contains n
+      rw [hdefs]
+    · show (fileDefs (f.items.take k ++ it :: f.items.drop k)).length = (fileDefs f.items).length
+      rw [hdefs]
     · intro n
       show extractType (f.items.take k ++ it :: f.items.drop k) n = extractType f.items n
       rw [extractType_insert path _ _ it hi n, ← hsplit]
-  · exact ⟨rfl, rfl, rfl, rfl, rfl, fun _ => rfl⟩
+  · exact ⟨rfl, rfl, rfl, rfl, fun _ => rfl, rfl, fun _ => rfl⟩
+
+/-! ### reordering the type declarations of a file -/
+
+/-- the name under which an item is indexed as a serde type, if it is one -/
+def inclName : Item → Option Str
+  | .struct s => if shouldInclude s.attrs then some s.name else none
+  | .enum e => if shouldInclude e.attrs then some e.name else none
+  | _ => none
+
+theorem fileDefs_eq (items : List Item) : fileDefs items = items.filterMap inclName := by
+  unfold fileDefs
+  apply filterMap_congr'
+  intro it _
+  cases it <;> rfl
+
+theorem find?_perm_unique {α : Type} (q : α → Bool) {l₁ l₂ : List α} (hp : l₁.Perm l₂)
+    (hu : ∀ x ∈ l₁, ∀ y ∈ l₁, q x = true → q y = true → x = y) : l₁.find? q = l₂.find? q := by
+  cases h₁ : l₁.find? q with
+  | none =>
+    have : ∀ x ∈ l₁, ¬ q x = true := by simpa [List.find?_eq_none] using h₁
+    symm
+    rw [List.find?_eq_none]
+    intro x hx
+    exact this x (hp.symm.subset hx)
+  | some a =>
+    have ha := List.find?_some h₁
+    have ham := List.mem_of_find?_eq_some h₁
+    cases h₂ : l₂.find? q with
+    | none =>
+      have : ∀ x ∈ l₂, ¬ q x = true := by simpa [List.find?_eq_none] using h₂
+      exact absurd ha (this a (hp.subset ham))
+    | some b =>
+      have hb := List.find?_some h₂
+      have hbm := hp.symm.subset (List.mem_of_find?_eq_some h₂)
+      rw [hu a ham b hbm ha hb]
+
+theorem extractType_perm {items items' : List Item} (hp : items'.Perm items)
+    (hu : ∀ x ∈ items, ∀ y ∈ items, inclName x = inclName y → inclName x ≠ none → x = y) (n : Str) :
+    extractType items' n = extractType items n := by
+  unfold extractType
+  have key : ∀ it : Item, (match it with
+      | .struct s => s.name = n && shouldInclude s.attrs
+      | .enum e => e.name = n && shouldInclude e.attrs
+      | _ => false) = true → inclName it = some n := by
+    intro it h
+    cases it with
+    | struct s => simp only [Bool.and_eq_true, decide_eq_true_eq] at h; simp [inclName, h.1, h.2]
+    | enum e => simp only [Bool.and_eq_true, decide_eq_true_eq] at h; simp [inclName, h.1, h.2]
+    | fn f => cases h
+    | other => cases h
+  rw [find?_perm_unique _ hp.symm (fun x hx y hy qx qy => hu x hx y hy (by rw [key x qx, key y qy]) (by rw [key x qx]; simp))]
+
+/-- the file at `path` with its items replaced -/
+def withItems (path : Str) (items' : List Item) (f : File) : File :=
+  if f.relPath = path then { f with items := items' } else f
+
+/-- **C13, reordering**: permuting the items of a file so that the functions keep their order — moving type
+    declarations, `use`s, constants anywhere among themselves and among the functions — leaves the whole analysis
+    unchanged, provided no two distinct serde types of the file share a name (of two such twins the *first* is taken) -/
+theorem analyze_reorder_types (p : Project) (path : Str) (items' : List Item)
+    (h : ∀ f ∈ p.files, f.relPath = path → items'.Perm f.items ∧ fnItems items' = fnItems f.items ∧
+      (∀ x ∈ f.items, ∀ y ∈ f.items, inclName x = inclName y → inclName x ≠ none → x = y)) :
+    analyze { p with files := p.files.map (withItems path items') } = analyze p := by
+  apply analyze_congr
+  intro f hf
+  unfold withItems
+  split
+  · rename_i hp
+    obtain ⟨hperm, hfn, hu⟩ := h f hf hp
+    have hdp : (fileDefs items').Perm (fileDefs f.items) := by
+      rw [fileDefs_eq, fileDefs_eq]; exact hperm.filterMap _
+    refine ⟨rfl, rfl, ?_, ?_, ?_, ?_, ?_⟩
+    · show fileCommands f.relPath items' = fileCommands f.relPath f.items
+      unfold fileCommands; rw [hfn]
+    · show fileEvents f.relPath items' = fileEvents f.relPath f.items
+      unfold fileEvents; rw [hfn]
+    · intro n
+      show (fileDefs items').contains n = (fileDefs f.items).contains n
+      have : n ∈ fileDefs items' ↔ n ∈ fileDefs f.items := hdp.mem_iff
+      by_cases hm : n ∈ fileDefs f.items
+      · simp [hm, this.mpr hm]
+      · have hm' : n ∉ fileDefs items' := fun h' => hm (this.mp h')
+        simp [hm, hm']
+    · exact hdp.length_eq
+    · intro n; exact extractType_perm hperm hu n
+  · exact ⟨rfl, rfl, rfl, rfl, fun _ => rfl, rfl, fun _ => rfl⟩
 
 end An
